@@ -13,6 +13,8 @@ _floors = {
     "sameblock_class_seen:OracleVoting2:sendVote+finishVoting": (4, 30),
     "sameblock_class_seen:RefundableOracleLock2:deposit+refund": (2, 15),
     "sameblock_class_seen:OracleVoting1:sendVote+finishVoting": (1, 4),
+    "sameblock_class_seen:RefundableOracleLock1:deposit+refund": 1,
+    "multi_in_real_chain:OracleVoting2:sendVote+finishVoting": (3, 20),
 }
 # every contract type deployed (twin and real chain), >= 1 success and >= 1 failure per method group
 for k in _KINDS_V12 + _WASM:
@@ -62,8 +64,15 @@ SPEC = {
             "(contract type, tx kind, method, outcome, error class, gas failure point) tuples that were included in a block and produced a receipt",
     "jobs": [
         Job("twins", "verifsim", "^TestVerifC15$", shards=(8, 16), timeout=(900, 3600)),
+        # scripted form of the designated same-block classes (votes + finishVoting, deposits + refund), V12 and V9
+        Job("sameblock", "verifsim", "^TestVerifC15SameBlock$", shards=(1, 1), timeout=(600, 600)),
         # checkptr at the cgo boundary + race detector on a slice (WASM and embedded)
-        Job("race", "verifsim", "^TestVerifC15$", race=True, shards=(2, 4), timeout=(900, 3600), env={"C15_STEPS": "40"}),
+        Job("race", "verifsim", "^TestVerifC15$", race=True, shards=(2, 4), timeout=(900, 3600), env={"C15_STEPS": "30"}),
+        # thorough only: AddressSanitizer on the Go/cgo glue of the WASM binding (the Rust archive itself is not instrumented)
+        Job("wasm-asan", "verifsim", "^TestVerifC15$", asan=True, shards=(1, 2), timeout=(900, 3600), tiers=("thorough",),
+            env={"C15_SLICE": "wasm", "C15_STEPS": "40", "ASAN_OPTIONS": "detect_leaks=0"}),
+        # thorough only: > 30 000 blocks so that STARTED votings become terminable (V12 and V9)
+        Job("long-termination", "verifsim", "^TestVerifC15LongTermination$", shards=(1, 2), timeout=(900, 3600), tiers=("thorough",)),
     ],
     "floors": _floors,
     "parallel": 16,
